@@ -28,6 +28,9 @@ use std::path::{Path, PathBuf};
 use std::process::{Child, Command, Stdio};
 use std::time::{Duration, Instant};
 
+/// wall-clock limit of a single case (generous: cases take micro- to milliseconds)
+const CASE_LIMIT_S: u64 = 300;
+
 #[derive(Clone, Copy, Debug, PartialEq, Eq)]
 pub enum Tier {
     Quick,
@@ -147,11 +150,31 @@ fn worker(m: &HashMap<String, String>) -> i32 {
         .expect("journal");
     let mut mon = Monitor::new();
     mon.replay_mode = verbose;
+    // Per-case wall-clock watchdog: a case that runs longer than CASE_LIMIT_S (harness loop, SDK hang
+    // without a hooked budget) ends this worker with exit code 97; the orchestrator reports the case
+    // as INCONCLUSIVE (never as a violation) and resumes the shard after it.
+    let case_started = std::sync::Arc::new(std::sync::atomic::AtomicU64::new(0));
+    {
+        let cs = case_started.clone();
+        std::thread::spawn(move || loop {
+            std::thread::sleep(Duration::from_millis(500));
+            let t = cs.load(std::sync::atomic::Ordering::Relaxed);
+            if t != 0 {
+                let now = std::time::SystemTime::now().duration_since(std::time::UNIX_EPOCH).map(|d| d.as_secs()).unwrap_or(0);
+                if now.saturating_sub(t) > CASE_LIMIT_S {
+                    eprintln!("case exceeded {CASE_LIMIT_S} s of wall clock");
+                    std::process::exit(97);
+                }
+            }
+        });
+    }
     let total = prop.cases(tier);
     let mut done = 0u64;
     let mut run_one = |k: u64, mon: &mut Monitor| {
         // BEGIN marker: case index + 1 (0 = idle), written straight to the kernel
         let _ = journal.write_at(&(k + 1).to_le_bytes(), 0);
+        let now = std::time::SystemTime::now().duration_since(std::time::UNIX_EPOCH).map(|d| d.as_secs()).unwrap_or(1);
+        case_started.store(now.max(1), std::sync::atomic::Ordering::Relaxed);
         mon.case = k;
         let mut rng = Rng::for_case(seed, prop.id(), k);
         // a panic of the harness itself (not inside a probe) is a harness error, reported as such
@@ -173,6 +196,7 @@ fn worker(m: &HashMap<String, String>) -> i32 {
                 detail: format!("harness panicked outside a probe: {msg}"),
             });
         }
+        case_started.store(0, std::sync::atomic::Ordering::Relaxed);
         let _ = journal.write_at(&0u64.to_le_bytes(), 0);
     };
     if let Some(k) = only {
@@ -365,7 +389,7 @@ fn orchestrate(m: &HashMap<String, String>) -> i32 {
     // generous wall-clock watchdog; its firing is INCONCLUSIVE, never a violation
     let watchdog = match tier {
         Tier::Quick => Duration::from_secs(900),
-        Tier::Thorough => Duration::from_secs(4 * 3600),
+        Tier::Thorough => Duration::from_secs(2 * 3600),
     };
 
     let mut inconclusive: Vec<String> = vec![];
@@ -418,6 +442,19 @@ fn orchestrate(m: &HashMap<String, String>) -> i32 {
                 Some(st) if st.success() => {
                     if !merge_result(&dir, &format!("{shard}"), &mut mg) {
                         inconclusive.push(format!("shard {shard}: result file missing"));
+                    }
+                }
+                Some(st) if st.code() == Some(97) => {
+                    // the worker's own per-case watchdog fired: inconclusive, resume after the case
+                    let at = read_journal(&dir, shard);
+                    inconclusive.push(format!("shard {shard}: case {at:?} exceeded the per-case wall-clock limit of {CASE_LIMIT_S} s (harness loop or SDK hang) — not a verdict"));
+                    if let Some(k) = at {
+                        if k > from {
+                            next.push((shard, from, k));
+                        }
+                        if k + 1 < until {
+                            next.push((shard, k + 1, until));
+                        }
                     }
                 }
                 Some(st) => {
